@@ -26,7 +26,29 @@ pub struct AsmOut {
 
 impl AsmOut {
     pub fn to_json(&self) -> Value {
-        json!({"res": self.res, "stage": self.stage, "orig": self.orig, "words": self.words, "bps": self.bps,
+        // long images are written with every run of 32 or more zero words as one negative number (-run length);
+        // the trace spec expands it again (Trace_Asm!WordsOf)
+        let words: Value = if self.words.len() > 4096 {
+            let mut sq: Vec<i64> = Vec::new();
+            let mut i = 0;
+            while i < self.words.len() {
+                let mut j = i;
+                while j < self.words.len() && self.words[j] == 0 {
+                    j += 1;
+                }
+                if j - i >= 32 {
+                    sq.push(-((j - i) as i64));
+                    i = j;
+                } else {
+                    sq.push(self.words[i] as i64);
+                    i += 1;
+                }
+            }
+            json!(sq)
+        } else {
+            json!(self.words)
+        };
+        json!({"res": self.res, "stage": self.stage, "orig": self.orig, "words": words, "bps": self.bps,
                "syms": self.syms.iter().map(|(n, l)| json!([n, l])).collect::<Vec<_>>(), "msg": self.msg,
                "code": self.code, "diag_ok": self.diag_ok, "spans_ok": self.spans_ok})
     }
